@@ -223,7 +223,7 @@ P["C18"] = {
 }
 
 # ---------------------------------------------------------------- C19
-c19q = [job("H_C19_ws_read", reach=["valid", "rejected"]), job("H_C19_ws_write", reach=["checked"]), job("H_C19_channel", conc=True, reach=["checked"]),
+c19q = [dict(job("H_C19_ws_read", reach=["valid", "rejected"]), env=True), dict(job("H_C19_ws_write", reach=["checked"]), env=True), job("H_C19_channel", conc=True, reach=["checked"]),
         job("H_C19_http_serve", conc=True, reach=["valid", "rejected"]), job("H_C19_http_idle", conc=True, reach=["checked"], reader=0), job("H_C19_http_idle", conc=True, reach=["checked"], reader=1),
         dict(job("H_C19_http_idle", conc=True, reader=1), race=True), dict(job("H_C19_http_serve", conc=True), race=True)]
 P["C19"] = {
